@@ -12,7 +12,6 @@ import (
 	_ "crypto/sha256" // used hash algorithms need to be imported explicitly
 	"errors"
 	"fmt"
-	"strings"
 
 	cose "github.com/veraison/go-cose"
 )
@@ -203,10 +202,25 @@ func checkPublicKey(pk crypto.PublicKey) error {
 	return nil
 }
 
+// knownAlgorithm reports whether alg is one of the entries of the COSE
+// Algorithms registry known to go-cose (the zero value and unassigned code
+// points are not).
+func knownAlgorithm(alg cose.Algorithm) bool {
+	switch alg {
+	case cose.AlgorithmPS256, cose.AlgorithmPS384, cose.AlgorithmPS512,
+		cose.AlgorithmES256, cose.AlgorithmES384, cose.AlgorithmES512,
+		cose.AlgorithmEdDSA,
+		cose.AlgorithmRS256, cose.AlgorithmRS384, cose.AlgorithmRS512:
+		return true
+	}
+
+	return false
+}
+
 func (e *Evidence) doSign(signer cose.Signer) ([]byte, error) {
 	alg := signer.Algorithm()
 
-	if strings.Contains(alg.String(), "unknown algorithm value") {
+	if !knownAlgorithm(alg) {
 		return nil, errors.New("signer has no algorithm")
 	}
 
